@@ -821,4 +821,4 @@ def search(ctx):
     thorough = ctx.tier == "thorough"
     ctx.enumerate(enum_cases(), "every value length 0..64 x value source x download style")
     ctx.enumerate(first_frame_cases(), "every first byte x 1..8 byte frames as the first frame of a fresh node")
-    ctx.hypothesis(history(10000 if thorough else 300), 6000 if thorough else 2500)
+    ctx.hypothesis(history(10000 if thorough else 300), 15000 if thorough else 2500)
